@@ -273,6 +273,7 @@ func init() {
 			}
 			// "its destination is exactly v": the catch value of THIS node, also after a value copy of it was given another
 			items = append(items, Item{Name: "value-copies-of-catching-schemas", MaxDevs: -1, Run: reKey("C05", "C17", c17ValueCopyScenario)})
+			items = append(items, Item{Name: "builder-call-sequences", MaxDevs: -1, Run: c05BuilderSequenceScenario})
 			return append(items, Item{Name: "catching-node-behind-preprocess", MaxDevs: -1, Run: c05PreprocessScenario})
 		},
 	})
